@@ -34,8 +34,11 @@ def load_all():
     return known, fixed
 
 
+EXTRA_PROPS = []      # (the C20 worker re-runs other properties' workers: C20's own listed findings apply to them as well)
+
+
 def load_known(prop):
-    return [k for k in load_all()[0] if k["property"] == prop]
+    return [k for k in load_all()[0] if k["property"] == prop or k["property"] in EXTRA_PROPS]
 
 
 # ----------------------------------------------------------------------------------------------
@@ -87,12 +90,47 @@ def c_hidden_name_not_globbed(v):
             and sid.split("/")[-1] not in (".", "..") and d.startswith("in find(") and d.endswith("/*): False, model exists: True"))
 
 
+def c_resolva_repeated_placeholder(v):
+    """Third-party resolva checks a placeholder that a path template repeats (folder + file name) only AFTER its first regex match
+    and then raises instead of trying the consistent reading. It shows when a closed vocabulary holds 'x' and 'x<sep>big' (listed
+    after it) and the file name joins its fields by <sep>: path() of such a Sid raises ResolvaException('Different extracted values
+    for placeholder ...'), and FindInPaths, which skips paths it cannot resolve, does not return the entities carrying the long value."""
+    import ast
+    import re as _re
+    c = _case(v)
+    d = v.get("detail", "")
+    if "Different extracted values for placeholder" in d:
+        return True
+    import os
+    p = c.get("conf_params") or {}
+    sep = p.get("sep", "_") if p.get("prefix_vocab") else os.environ.get("VERIF_PREFIX_VOCAB_SEP")     # (set by the C20 worker)
+    if not sep:
+        return False
+    tail = sep + "big"
+    kind = v.get("kind", "").split(":")[-1]
+    pats = {"paths_vs_expected": (r"missing=(\[.*?\]) extra=(\[.*?\])$", 0, 1),
+            "FindInAll_vs_R7": (r"missing=(\[.*?\]) extra=(\[.*?\])$", 0, 1),
+            "FindInAll_config_vs_R7": (r"missing=(\[.*?\]) extra=(\[.*?\])$", 0, 1),
+            "list_vs_paths": (r"list only=(\[.*?\]) paths only=(\[.*?\])$", 0, 1)}
+    if kind not in pats:
+        return False
+    m = _re.search(pats[kind][0], d)
+    if not m:
+        return False
+    try:
+        lost, other = ast.literal_eval(m.group(1)), ast.literal_eval(m.group(2))
+    except Exception:
+        return False
+    return bool(lost) and not other and all(any(seg.endswith(tail) for seg in e.split("/")) for e in lost)
+
+
 CLASSIFIERS = {
     "trailing_newline_sid": c_trailing_newline_sid,
     "trailing_newline_path": c_trailing_newline_path,
     "trailing_newline_nav": c_trailing_newline_nav,
     "glob_charclass": c_glob_charclass,
     "hidden_name_not_globbed": c_hidden_name_not_globbed,
+    "resolva_repeated_placeholder": c_resolva_repeated_placeholder,
 }
 
 
